@@ -12,7 +12,7 @@
 mod loopdrv;
 
 use divan::verif::{self, TallyMirror};
-use loopdrv::{apply_op, Op};
+use loopdrv::{apply_op, apply_op_refused, Op};
 use mc_seq::{Cli, Report, Violation};
 use serde_json::json;
 use std::collections::HashSet;
@@ -22,6 +22,9 @@ const SIZES: [u64; 5] = [0, 1, 7, 4096, 1 << 40];
 #[derive(Clone, Copy, Debug, PartialEq, Eq)]
 enum Step {
     Op(Op),
+    /// The same request, refused by the wrapped allocator (null): a request is an operation
+    /// whether or not it succeeds, the tally counts it all the same.
+    Refused(Op),
     Clear,
 }
 
@@ -41,6 +44,16 @@ fn alphabet() -> Vec<Step> {
             v.push(Step::Op(Op::Realloc(a, b)));
         }
     }
+    const REFUSED_SIZES: [u64; 3] = [0, 7, 1 << 40];
+    for z in REFUSED_SIZES {
+        v.push(Step::Refused(Op::Alloc(z)));
+        v.push(Step::Refused(Op::AllocZeroed(z)));
+    }
+    for a in REFUSED_SIZES {
+        for b in REFUSED_SIZES {
+            v.push(Step::Refused(Op::Realloc(a, b)));
+        }
+    }
     v.push(Step::Clear);
     v
 }
@@ -51,7 +64,7 @@ fn reference(history: &[Step]) -> TallyMirror {
     let ops: Vec<Op> = history[start..]
         .iter()
         .map(|s| match s {
-            Step::Op(op) => *op,
+            Step::Op(op) | Step::Refused(op) => *op,
             Step::Clear => unreachable!(),
         })
         .collect();
@@ -107,6 +120,7 @@ fn apply_real(from: &TallyMirror, step: Step) -> TallyMirror {
     assert!(verif::tally_set(from));
     match step {
         Step::Op(op) => apply_op(op),
+        Step::Refused(op) => apply_op_refused(op),
         Step::Clear => {
             verif::tally_clear();
         }
@@ -127,6 +141,10 @@ fn encode(h: &[Step]) -> serde_json::Value {
             Step::Op(Op::AllocZeroed(z)) => json!(["alloc_zeroed", z.to_string()]),
             Step::Op(Op::Dealloc(z)) => json!(["dealloc", z.to_string()]),
             Step::Op(Op::Realloc(a, b)) => json!(["realloc", a.to_string(), b.to_string()]),
+            Step::Refused(Op::Alloc(z)) => json!(["refused_alloc", z.to_string()]),
+            Step::Refused(Op::AllocZeroed(z)) => json!(["refused_alloc_zeroed", z.to_string()]),
+            Step::Refused(Op::Dealloc(z)) => json!(["refused_dealloc", z.to_string()]),
+            Step::Refused(Op::Realloc(a, b)) => json!(["refused_realloc", a.to_string(), b.to_string()]),
         })
         .collect::<Vec<_>>())
 }
@@ -143,6 +161,10 @@ fn decode(v: &serde_json::Value) -> Vec<Step> {
                 "alloc" => Step::Op(Op::Alloc(n(1))),
                 "alloc_zeroed" => Step::Op(Op::AllocZeroed(n(1))),
                 "dealloc" => Step::Op(Op::Dealloc(n(1))),
+                "refused_alloc" => Step::Refused(Op::Alloc(n(1))),
+                "refused_alloc_zeroed" => Step::Refused(Op::AllocZeroed(n(1))),
+                "refused_dealloc" => Step::Refused(Op::Dealloc(n(1))),
+                "refused_realloc" => Step::Refused(Op::Realloc(n(1), n(2))),
                 _ => Step::Op(Op::Realloc(n(1), n(2))),
             }
         })
